@@ -403,9 +403,14 @@ func dumpNode(sb *strings.Builder, v reflect.Value) {
 	sb.WriteString(" ]")
 }
 
+var namedMandatory = map[string][]string{
+	"leaf": {"type"}, "leaf-list": {"type"}, "typedef": {"type"}, "import": {"prefix"}, "belongs-to": {"prefix"},
+	"module": {"namespace", "prefix"}, "submodule": {"belongs-to"}, "deviation": {"deviate"},
+}
+
 // oracle: Go-side structural comparison of a built node against its statement, independent of the
 // model.  stmt is the node's own source statement tree (pointer identities are checked below it).
-func oracle(v reflect.Value, stmt *yang.Statement, parent yang.Node, kwAtTop string, probs *[]string) {
+func oracle(v reflect.Value, stmt *yang.Statement, parent yang.Node, probs *[]string) {
 	add := func(format string, a ...any) {
 		if len(*probs) < 5 {
 			*probs = append(*probs, fmt.Sprintf(format, a...))
@@ -442,7 +447,7 @@ func oracle(v reflect.Value, stmt *yang.Statement, parent yang.Node, kwAtTop str
 				continue
 			}
 			next[f.idx]++
-			oracle(kids[k], ss, n, "", probs)
+			oracle(kids[k], ss, n, probs)
 			continue
 		}
 		if strings.Count(ss.Keyword, ":") == 1 {
@@ -472,6 +477,12 @@ func oracle(v reflect.Value, stmt *yang.Statement, parent yang.Node, kwAtTop str
 			if k != stmt.Keyword && count[f.tag] > 0 {
 				add("%s: %s, a substatement of %s only, is present", where, f.tag, k)
 			}
+		}
+	}
+	// the mandatory substatements the property names, independent of the struct tags (RFC 7950)
+	for _, c := range namedMandatory[stmt.Keyword] {
+		if count[c] == 0 {
+			add("%s: %s without %s was accepted", where, stmt.Keyword, c)
 		}
 	}
 	if nextExt != len(exts) {
@@ -551,7 +562,7 @@ func runGo(text string) (res goResult) {
 			probs = append(probs, "module without source statement")
 			continue
 		}
-		oracle(reflect.ValueOf(t.m), t.m.Source, nil, t.m.Source.Keyword, &probs)
+		oracle(reflect.ValueOf(t.m), t.m.Source, nil, &probs)
 		if (t.m.Source.Keyword == "submodule") != t.sub || t.m.Source.Keyword != "module" && t.m.Source.Keyword != "submodule" {
 			probs = append(probs, fmt.Sprintf("top-level %s landed in the wrong module map", srcRef(t.m.Source)))
 		}
@@ -633,7 +644,7 @@ type rgen struct {
 
 var unknownKws = []string{"foo", "Name", "Statement", "Parent", "Ext", "submodule", "module", "a:b:c", "frobnicate"}
 var prefixedKws = []string{"p:ext", "x:y", ":q", "q:", "oc-ext:openconfig-version", "Name:x"}
-var argPool = []string{"a", "b", "c", "x1", "a b", "", "urn:x", "1", "2001-01-01", "2002-02-02", "true"}
+var argPool = []string{"a", "b", "c", "x1", "a b", "", "urn:x", "1", "2001-01-01", "2002-02-02", "true", "\u00e9t\u00e9", "q\"uo\\te", "tab\there", "{;}"}
 
 func (g *rgen) arg(s *gs) {
 	if g.r.Intn(25) == 0 {
@@ -813,6 +824,7 @@ type runState struct {
 	distinct *lib.Distinct
 	mu       sync.Mutex
 	ok, errs int64
+	randOk   int64
 	classes  map[string]int64
 	nontriv  int64
 	examined int
@@ -844,6 +856,9 @@ func (st *runState) process(cases []*tcase) {
 			st.classes["crash"]++
 		case fs[0] == "ok":
 			st.ok++
+			if strings.HasPrefix(c.Origin, "random") {
+				st.randOk++
+			}
 		default:
 			st.errs++
 			st.classes[fs[1]]++
@@ -1023,48 +1038,54 @@ func main() {
 	cases = nil
 
 	// 3. random trees
-	total := 20000
+	total := 64000
 	if f.Thorough() {
 		total = 500000
 	}
 	shards := 16
 	per := total / shards
-	chunks := make([][]*tcase, shards)
-	var wg sync.WaitGroup
-	for sh := 0; sh < shards; sh++ {
-		wg.Add(1)
-		go func(sh int) {
-			defer wg.Done()
-			g := &rgen{r: f.Rand(sh), allKw: allKw, maxDep: 4}
-			for i := 0; i < per; i++ {
-				tops := g.file()
-				text := renderAll(tops)
-				c, err := prepare(fmt.Sprintf("random shard %d #%d", sh, i), text)
-				if err != nil {
-					lib.Fatal("generated text does not parse (%v):\n%s", err, text)
-				}
-				chunks[sh] = append(chunks[sh], c)
-			}
-		}(sh)
+	gens := make([]*rgen, shards)
+	for sh := range gens {
+		gens[sh] = &rgen{r: f.Rand(sh), allKw: allKw, maxDep: 4}
 	}
-	wg.Wait()
 	var sizes int64
-	for _, ch := range chunks {
-		for _, c := range ch {
-			sizes += int64(c.nstmt)
+	// rounds of at most 4000 cases per shard keep memory flat in the thorough tier
+	for done := 0; done < per; done += 4000 {
+		n := per - done
+		if n > 4000 {
+			n = 4000
 		}
-		// bounded batches keep memory flat in the thorough tier
-		for lo := 0; lo < len(ch); lo += 40000 {
-			hi := lo + 40000
-			if hi > len(ch) {
-				hi = len(ch)
+		chunks := make([][]*tcase, shards)
+		var wg sync.WaitGroup
+		for sh := 0; sh < shards; sh++ {
+			wg.Add(1)
+			go func(sh int) {
+				defer wg.Done()
+				g := gens[sh]
+				for i := 0; i < n; i++ {
+					tops := g.file()
+					text := renderAll(tops)
+					c, err := prepare(fmt.Sprintf("random shard %d #%d", sh, done+i), text)
+					if err != nil {
+						lib.Fatal("generated text does not parse (%v):\n%s", err, text)
+					}
+					chunks[sh] = append(chunks[sh], c)
+				}
+			}(sh)
+		}
+		wg.Wait()
+		var all []*tcase
+		for _, ch := range chunks {
+			for _, c := range ch {
+				sizes += int64(c.nstmt)
 			}
-			st.process(ch[lo:hi])
+			all = append(all, ch...)
 		}
+		st.process(all)
 	}
 
 	res.DistinctNontrivial = st.nontriv
-	res.Exhaustive = true
+	res.Exhaustive = false // the triple enumeration is complete, the space of all statement trees is sampled
 	res.Rule = "distinct_nontrivial = distinct statement forests (wire form incl. positions) with at least 4 statements. " +
 		"Exhaustive part: every (parent keyword, child keyword, multiplicity) triple with the parent in a minimal valid module " +
 		"(and submodule) context, child keywords = every keyword of the table + meta-names Name/Statement/Parent/Ext + unknown + " +
@@ -1079,6 +1100,7 @@ func main() {
 	res.Distribution["random_cases"] = per * shards
 	res.Distribution["random_mean_statements"] = float64(sizes) / float64(per*shards)
 	res.Distribution["go_ok"] = st.ok
+	res.Distribution["random_go_ok"] = st.randOk
 	res.Distribution["go_error"] = st.errs
 	cl := map[string]any{}
 	for k, v := range st.classes {
@@ -1118,6 +1140,10 @@ func replay(f *lib.Flags) {
 	}
 	defer d.Close()
 	m, _ := d.Ask("build " + c.wire)
+	if m == c.g.out && c.g.problem == "" {
+		fmt.Printf("input:\n%s\ngo:    %s\nmodel: %s\nmodel and implementation agree; the Go-side structural comparison finds nothing\n", text, c.g.out, m)
+		return
+	}
 	v := verdict(d, c, m)
 	fmt.Printf("input:\n%s\ngo:    %s\nmodel: %s\nspec:  %s (%s)\n", text, c.g.out, m, v.SpecVerdict, v.What)
 	if c.g.problem != "" {
